@@ -221,8 +221,19 @@ CHECKS["C13"] = dict(
          "paths are outside.",
     design="§4 C13")
 
+CHECKS["C02"] = dict(
+    engine="E2 mirsym (MIR -> z3) with a text model of format!", technique="symbolic execution of rustc MIR of every printer arm (format! decoded from the compiler's template constants, symbolic indentation level), z3 bit-vector proofs of the indentation arithmetic, z3 string/regex query for integer literals, bounded composition of the extracted templates judged by CPython's parser, native replay through the real printer",
+    text="Bounded model checking of the emitter: every MIR path of generate::ast::to_py and its layout helpers yields a template whose "
+         "indentation pieces are proved to be exactly 4*(ind+k) spaces for every level <= 2^20; the templates are composed on every "
+         "statement tree up to the nesting bound (3 296 trees, every path of every arm) and the text must parse - to the Python AST the "
+         "Core tree means - and equal the real printer's bytes; the converter never hands over an empty body (convert_def, extract_class, "
+         "init); integer literals are emitted as valid Python decimal integers (z3 strings over all digit strings <= 8 digits).",
+    note="RESTRICTED claim (printer statements, empty bodies, integer literals): expression delimiting is C10; the content of string "
+         "literals, comprehension / dictionary printing, whole files and both annotate settings end to end are outside. Nesting bound: 2 "
+         "compound statements deep (quick), 3 (thorough); blocks are assumed non-empty (the parser builds none).",
+    design="§4 C02")
+
 NOT_APPLICABLE = {
-    "C02": "needs the generator executed on symbolic programs (core::fmt/to_py recursion does not finish in CBMC even on concrete 3-node trees) and membership in Python's grammar as the assertion; no encodable kernel (DESIGN §6)",
     "C04": "oracle is Python's dynamic semantics over whole programs and the subject is the whole checker (HashSet/recursion out of reach of Kani; not loop-free for the MIR executor) (DESIGN §6)",
 }
 
